@@ -342,3 +342,40 @@ Definition decorated_call (ps : list param) (kp : list (nat * param)) (posos : l
   | Ok (args', kws') => bindv ps args' kws'
   | Err _ => None
   end.
+
+(* ------------------------------------------------------------------ the descriptor cache *)
+(* OverrideableDataDesc: every translator owns its `insts` dictionary (created
+   in __init__), whose keys are the functions that type(self.func).__get__
+   produced (the function itself for class access, the bound method for
+   instance access).  All the dictionaries together are one table keyed by
+   (translator, function).  [build t f] stands for what a miss stores:
+   `self` when f is self.func, otherwise custom_getter(f, original=self).
+   Weak-reference eviction is not modelled (it only removes entries). *)
+Definition ckey := (N * N)%type.          (* translator id, function id *)
+Definition ckey_eqb (a b : ckey) : bool := N.eqb (fst a) (fst b) && N.eqb (snd a) (snd b).
+
+Fixpoint cache_get {V} (c : list (ckey * V)) (k : ckey) : option V :=
+  match c with
+  | [] => None
+  | (k', v) :: c' => if ckey_eqb k k' then Some v else cache_get c' k
+  end.
+Definition cache_set {V} (c : list (ckey * V)) (k : ckey) (v : V) : list (ckey * V) := (k, v) :: c.
+
+(* __get__ : try self.insts[func], else build, store, return *)
+Definition desc_get {V} (build : N -> N -> V) (c : list (ckey * V)) (t f : N)
+  : V * list (ckey * V) :=
+  match cache_get c (t, f) with
+  | Some v => (v, c)
+  | None => let v := build t f in (v, cache_set c (t, f) v)
+  end.
+
+(* a history of lookups (translator, function), in order *)
+Fixpoint desc_gets {V} (build : N -> N -> V) (c : list (ckey * V)) (h : list (N * N))
+  : list V * list (ckey * V) :=
+  match h with
+  | [] => ([], c)
+  | (t, f) :: h' =>
+      let r := desc_get build c t f in
+      let rs := desc_gets build (snd r) h' in
+      (fst r :: fst rs, snd rs)
+  end.
